@@ -301,6 +301,12 @@ def execute(prop, tier, seed, P, replay=None, clear=True):
             viol += ar["viol"]
             cov["pending_approval_teardown"] = ar["cov"]
             cov["traces_validated_against_impl"] += ar["cov"]["schedules"]
+        if P.get("pair_probes"):
+            import pairs
+            pr = pairs.execute(prop, tier, seed, sc, topo)
+            viol += pr["viol"]
+            cov["pair_probes"] = pr["cov"]
+            cov["traces_validated_against_impl"] += pr["cov"]["pair_probes"]
         if P.get("race"):
             import races
             rr = races.execute(prop, tier, sc, topo)
